@@ -425,6 +425,12 @@ theorem inv7_stepOp {x : Sim} (o : Op) (ho : OpOk o) (h : Inv7 x.st) : ∀ y ∈
   | inject p cs aw =>
     simp only [stepOp] at hy
     exact injectAll_ind (fun z => Inv7 z.st) p cs aw (fun z s' hz hs' => inv7_turns hz s' hs') (fun z hz => inv7_doSend p cs aw ho hz) 50 h y hy
+  | clone w =>
+    simp only [stepOp, List.mem_singleton] at hy; subst hy
+    unfold cloneWaiter
+    split
+    · exact inv7_quiet (s := x.st) ((quiet_pollWaiter _ _).trans ⟨⟨rfl, rfl, rfl, rfl, rfl, rfl, rfl, rfl⟩, rfl⟩) h
+    · exact inv7_quiet (s := x.st) (quiet_emit _ _) h
 
 theorem inv7_runOps (ops : List Op) (hok : ∀ o ∈ ops, OpOk o) {x : Sim} (h : Inv7 x.st) :
     ∀ y ∈ runOps x ops, Inv7 y.st := by
